@@ -509,7 +509,12 @@ def typed_rho(rng, v):
 # --------------------------------------------------------------------------
 def build_base(ctx, rng, coupled, lat, lon, S, **kw):
     from pyunicorn.climate import ClimateNetwork, CoupledClimateNetwork
+    from pvm.gen.held import as_held
     n = len(lat)
+    # the similarity matrix in a layout a caller may hold it in (Fortran
+    # order - e.g. the transpose of a C array -, strided view, read-only)
+    S, htag = as_held(rng, S, forms=("c", "c", "c", "f", "view", "readonly"))
+    ctx.count("similarity_held_as:" + htag)
     if coupled:
         n1 = int(rng.integers(1, n))
         return ctx.call(CoupledClimateNetwork,
